@@ -14,6 +14,11 @@ Decided (typestate / rekey rules, every history):
               on EVERY path (a reset skipped when no result was taken yet keeps the bytes already fed)
   hmac-keys   the retained i_key / o_key are the RFC 2104 pads of the key for every key length (a key of exactly one block
               is used as is), shared with C08
+  shape-eval Hmac (new / input / raw_result / reset) against RFC 2104 with an UNINTERPRETED digest (transcript -> fresh symbols), every
+             key length class x message split x {result, result again, reset + next message}; sizes derived from the code's
+             length constants.  Independent of how the code is organised; the structural rules stay as cross-checks
+  shape-eval BLAKE2 keyed (re)initialisation for every key length (engine from (outlen, key.len()), buffer = key || zeros,
+             buflen one block iff keyed) and the legacy wrappers' key retention, constructors kept opaque
 Not decided: digest / MAC values."""
 import re
 
@@ -22,7 +27,7 @@ from ..mir import fmt, walk, const_val
 from . import objects, hashctx
 
 EXPLANATION = __doc__
-TECHNIQUE = "MIR must-set dataflow with callee summaries, branch-fact guards, reset-completeness and definite-zeroing rules"
+TECHNIQUE = "MIR must-set dataflow with callee summaries, branch-fact guards, reset-completeness and definite-zeroing rules; object-level bounded shape evaluation with an uninterpreted digest / PRF (transcript terms) against the RFC's defining term"
 
 
 def cn(fn, op):
